@@ -264,6 +264,9 @@ func (w *c20World) build(conf *configuration, o *c20Outcome) {
 	w.buildMessages(ctx, b, o)
 	w.buildCache(ctx, b, o)
 	w.buildServers(ctx, b, o)
+	if w.restart {
+		w.buildRestart(ctx, b, o)
+	}
 	w.buildFilters(ctx, b, o)
 	w.buildMisc(ctx, b, o)
 	w.buildWorkers(conf, o)
